@@ -158,8 +158,28 @@ func genLifecycle(r *rng) *lcGen {
 		step = 2
 		g.feats["calendar-corner"] = true
 	}
+	eras := false
+	if !g.feats["calendar-corner"] && r.chance(12) {
+		// days that lie centuries apart, on both sides of 1677-09-21 and 2262-04-11 (the range of a time.Time's
+		// nanosecond count; seeded change C04f-day-order-by-unix-nanoseconds ordered the days by it, so that the days
+		// outside that range were checked before / after all others)
+		d = pick(r, []time.Time{
+			time.Date(1, 1, 1, 0, 0, 0, 0, time.UTC), time.Date(1583, 3, 1, 0, 0, 0, 0, time.UTC),
+			time.Date(1677, 9, 19, 0, 0, 0, 0, time.UTC), time.Date(1677, 9, 19, 0, 0, 0, 0, time.UTC),
+			time.Date(1969, 12, 30, 0, 0, 0, 0, time.UTC), time.Date(2020, 5, 1, 0, 0, 0, 0, time.UTC),
+			time.Date(2262, 4, 9, 0, 0, 0, 0, time.UTC), time.Date(2262, 4, 9, 0, 0, 0, 0, time.UTC)}).AddDate(0, 0, r.intn(3))
+		eras = true
+		g.feats["eras"] = true
+	}
 	for i := 0; i < nDays; i++ {
 		g.dates = append(g.dates, dateStr(d))
+		if eras && r.chance(60) {
+			nd := d.AddDate(0, 0, r.rangeInt(2000, 250000))
+			if nd.Year() <= 9999 {
+				d = nd
+				continue
+			}
+		}
 		d = d.AddDate(0, 0, 1+r.intn(step))
 	}
 	for day := 0; day < nDays; day++ {
